@@ -27,6 +27,9 @@ def main():
             items = idx
         elif mode == "ext":
             items = [{"e": i} for i in idx]
+        elif mode == "small":
+            items = [{"s": i} for i in idx if i < len(universe.small_population_battery())]
+            idx = idx[:len(items)]
         elif mode == "boundary":
             items = [{"v": i} for i in idx if i < len(universe.boundary_battery())]
             idx = idx[:len(items)]
